@@ -118,6 +118,23 @@ theorem eq_beDigits (b : Nat) (ds : List Nat) (h : ∀ d ∈ ds, d < b) (hb : 0 
   apply beValue_inj b _ _ h (beDigits_lt b _ _ hb) (beDigits_length _ _ _).symm
   rw [beValue_beDigits _ _ _ (beValue_lt b ds h)]
 
+/-! ### the fuel of `drain` never runs out -/
+
+/-- under the precondition `0 < tobits`, `drain` started with `fuel ≥ bits` leaves through its own
+    exit test: the returned `bits` is below `tobits` (CPython's `while bits >= tobits` has terminated) -/
+theorem drain_exits (tobits maxv acc : Nat) (htb : 0 < tobits) (fuel bits : Nat) (ret : List Nat)
+    (hf : bits ≤ fuel) : (drain tobits maxv acc fuel bits ret).1 < tobits := by
+  induction fuel generalizing bits ret with
+  | zero =>
+    have : bits = 0 := by omega
+    subst this
+    simpa [drain] using htb
+  | succ fuel ih =>
+    simp only [drain]
+    split
+    · exact ih _ _ (by omega)
+    · simp only; omega
+
 /-! ### 5 → 8 without padding (`decode`) -/
 
 theorem cb58_unfold (d : List Nat) :
